@@ -9,6 +9,9 @@ GROUPS = [
     Group(name="C16/macros_push_define", unity="C16/u_macros.cpp", entry="h_push_define", functions=[("macros_push_define", M, "harness (loop-free, every stack depth)")], unwind=3, checks=CH, timeout=300),
     Group(name="C16/macros_expand_params.collect", unity="C16/u_macros.cpp", entry="h_expand_collect", functions=[("macros_expand_params (argument collection)", M, "harness+loop-contracts, unbounded character stream")],
           loops="C16/expand.loops.json", expected_loops=2, unwind=3, checks=CH, timeout=600),
+    Group(name="C16/tokens_get", unity="C16/u_tokens.cpp", entry="h_tokens_get",
+          functions=[("tokens_get", "core/tokens.cpp", "harness+7 loop-contracts, unbounded character stream"), ("tokens_get_char", "core/tokens.cpp", "loop-contract"), ("tokens_unget_char", "core/tokens.cpp", "real callee"), ("process_escape", "core/tokens.cpp", "real callee")],
+          loops="C16/tokens.loops.json", expected_loops=7, unwind=520, checks=CH[:2], timeout=1800, tier="thorough"),
 ]
 GROUPS += [g for g in _c05.GROUPS if "Memory.write1" in g.name or "Memory.write16" in g.name or "parse_align" in g.name]
 GROUPS += [g for g in _c04.GROUPS if "Var.divmod" == g.name.split("/")[1]]
